@@ -86,6 +86,19 @@ static void handle(const verif::Tokens& t, std::ostream& o)
     else o << "BAD-OP";
     return;
   }
+  if(op == "fxfer")
+  {
+    MatrixType prol = read_csr(c);
+    MatrixType trunc = read_csr(c);
+    std::vector<Q> xv = qlist(c), yv = qlist(c);
+    MatrixType rest = prol.transpose();
+    VectorType xc(Index(xv.size())), yf(Index(yv.size()));
+    for(Index i(0); i < xc.size(); ++i) xc(i, xv[i]);
+    for(Index i(0); i < yf.size(); ++i) yf(i, yv[i]);
+    o << "F";
+    float_convert_sections(o, prol, rest, trunc, xc, yf);
+    return;
+  }
   if(op == "gxfer" || op == "gforbid")
   {
     int which = (op == "gforbid" ? int(c.idx()) : 0);
